@@ -9,6 +9,7 @@ def run(tier):
                "all five must give token-identical expansions or all be rejected. distinct_nontrivial = distinct (instruction name, level, spelling) triples "
                "that occurred in a compared pair whose input has >=3 instructions.")
     g = xgen.G(common.rng_for("C13", tier))
+    g.allow_unknown_p = 0.06
     nvalid, nfault = (500, 300) if tier == "quick" else (14000, 8000)
     items = [xgen.gen(g) for _ in range(nvalid)] + multi_fault_items(g, nfault, 1, 3)
     modes = ["bare", "o2o", "grouped", "mixed", "mixed"]
